@@ -255,6 +255,11 @@ func execC11(c run.Case) (res run.Result) {
 			}
 		}
 		switch {
+		case m.AmbiguousSeen && (missing || m.Err != ""):
+			// an index was re-used after a removal before this point: which connection
+			// "[i]" names is not well defined (known finding F-C11-index-reused-after-removal,
+			// reported by the ref.exactly-one clause); existence of an index is not judged
+			res.Inc("vacuous_missing_index_after_index_reuse")
 		case m.Err == "indexed edge does not exist":
 			res.Inc("clause_missing_index_judged")
 			res.Nontrivial = true
